@@ -13,3 +13,26 @@ add("C19", "brute-force reference monitor: mutual-nearest-neighbour and radius s
     "held on the observed backend runs: thousands of cloud pairs (random, clustered, gridded with exact ties, collinear, duplicated, crossing curves, empty) over 9 decades of tolerances and "
     "tens of thousands of segment pairs in 9 geometric classes incl. exactly and nearly parallel, collinear and zero-length",
     "ties accepted in either consistent way; labels within 4 ulp of the ballistic threshold accept either; completeness asserted only for strictly mutual pairs clearly inside the thresholds")
+add("C03", "runtime oracle comparison: reference 42-D variational flow (sympy field + SciPy DOP853 1e-13), finite differences of the library's own flow, symplectic invariants in canonical coordinates, on live _compute_stm / orbit objects",
+    "held on the observed executions: STM computations over several mass ratios, start classes (near L1/L2/L3, generic), durations up to 3, both directions, adaptive 5/8 and fixed 4/6/8; "
+    "every sampled PHI row checked; corrected halo/Lyapunov orbits: monodromy, M f = f, reported indices and eigenvalues",
+    "paths kept >= 0.05 from the primaries and |Phi| <= 1e4; tolerance 1e-6 |Phi|^2 plus a term proportional to the scheme's own state error")
+add("C12", "boundary observation of Manifold.compute results against a reference Floquet analysis (reference monodromy, STM transport, reference flow and Jacobi constant)",
+    "held on the observed manifolds: corrected halo/Lyapunov orbits at L1/L2 (Earth-Moon, Sun-Earth), 4 branches each, 8-40 phases, displacements 1e-7..1e-4, adaptive/fixed; each retained trajectory checked for base point, displacement norm, angle to the true direction, side, time direction, flow and Jacobi constant",
+    "seed-to-phase association by nearest reference base point; side convention = pivot-positive eigenvector transported continuously (as documented by the library)")
+add("C05", "contract-style monitor on the real Newton backend (iterates recorded through its own on_iteration hook, residual re-evaluated by the monitor) over generated residual maps + independent reference propagation of every corrected orbit",
+    "held on the observed executions: hundreds to tens of thousands of generated solver problems (regular, rootless, singular start, raising and NaN residuals, rectangular; both steppers; tolerances 1e-14..1e-3; caps) and "
+    "corrected halo/Lyapunov/vertical orbits at L1/L2 for several mass ratios: closure under an independent integrator, half-period residual, period = 2 x first crossing, untouched non-control components; failures must raise and leave the orbit unchanged",
+    "reference flow at 1e-13; closure bound scales with the reference monodromy norm; any exception counts as 'raises an error'; non-finite updates (NaN residual) are not judged against the step cap")
+add("C10", "runtime oracle comparison at signed times (SciPy DOP853 1e-13 on independent right-hand sides) for every system family x integrator x direction x grid kind; outcome classifier reject-or-correct for descending grids",
+    "held on the observed executions: user autonomous and time-dependent rhs, CR3BP, polynomial Hamiltonian systems (and the 42-D variational system in the thorough tier) x fixed 4/6/8, adaptive 5/8, symplectic 2/4 x forward/backward, "
+    "selective flip, ascending/non-uniform/offset/descending grids; time stamps, first sample, intermediate samples and round trips checked",
+    "benign non-chaotic problems so 2e-6 absolute is far above integration error; the extended symplectic scheme is judged at 1e-3 here (its order is C16's subject); round trip not judged for time-dependent rhs (API restarts the clock)")
+add("C13", "fault enumeration: every accept/reject/raise outcome sequence up to length L of a scripted corrector against the real predictor-corrector backend, compared clause-wise with an executable model of the property; plus end-to-end families under an independent reference flow",
+    "all outcome sequences up to L=9 (quick) / 14 (thorough) for a pairwise-covering configuration set (steppers, step vectors, targets, member/retry limits, clamps, shrink policies); icontract post-conditions on _clamp_step/on_reject; "
+    "generated halo/Lyapunov families: every member closes with its own period, periods differ, parameter monotone",
+    "model written from the property text (contmodel); where the text is silent either outcome is accepted; assumes an accepted correction leaves the step unchanged",
+    category="fault_enumeration")
+add("C16", "invariant monitor on the real one-step map (finite-difference Jacobian against the extended canonical form, S_-h o S_h = id) + convergence-rate and long-run energy monitors against an independent exact flow (SciPy DOP853 on J grad H from the coefficient dictionary)",
+    "held on the observed executions: random polynomial Hamiltonians of degree <= 6 in 3 dof (separable, non-separable, q.p cross terms), orders 2/4/6/8, steps +-[1e-3,0.2], omega in [0.5,50]; asymptotic rates from the finest conclusive pair; 20k-60k step energy records",
+    "rates judged only inside the conclusive error window [2e-12,1e-3]; omega held fixed for the order clause as the property states; energy clause on bounded small-amplitude motions only")
